@@ -129,7 +129,7 @@ class SrcState:
 
     __slots__ = ("sid", "items", "plan", "pos", "uses", "ended", "closed", "active", "overlap",
                  "faulted", "use_after_fault", "pull_after_end", "gen", "started", "use_after_close",
-                 "max_active", "log", "drop")
+                 "max_active", "log", "drop", "honour_close")
 
     def __init__(self, sid: Any, items: List[Any], plan: Plan = NOPLAN, log: bool = True):
         self.sid = sid
@@ -150,6 +150,7 @@ class SrcState:
         self.started = False
         self.log = log
         self.drop = False  # forget served items (for retention measurements)
+        self.honour_close = True  # a closed class-based source yields nothing more (like a closed generator)
 
     # -- the part shared by sync and async flavours: one "use" of the source ----
     def begin(self) -> None:
@@ -271,6 +272,10 @@ class AsyncSrc:
         if st.active > st.max_active:
             st.max_active = st.active
         try:
+            if st.closed and st.honour_close:
+                # like a closed generator: nothing more, and the poll is not a "use"
+                st.use_after_close += 1
+                raise StopAsyncIteration
             if st.plan.susp:
                 await Suspend(("src", st.sid), st.plan.susp)
             # cancellation safe: the use is committed only after the last suspension
